@@ -181,6 +181,24 @@ def shared_state(u):
             for d in f.node.args.defaults + [x for x in f.node.args.kw_defaults if x is not None]:
                 if isinstance(d, MUTABLE_NODES):
                     u.ensure(False, f"mutable_default:{f.qualname}", desc=f"{f.qualname} has a mutable default argument {ast.unparse(d)}")
+    # persistent helper objects (created once per Solver) hold no state that a solve could change: outside their
+    # constructors their methods never store to self (functools.cached_property is the only sanctioned cache)
+    PERSISTENT = {"pygradflow.transform.Transformation": {"__init__"}, "pygradflow.scale.ScaledProblem": {"__init__"}, "pygradflow.cons_problem.ConstrainedProblem": {"__init__", "create_slacks"},
+                  "pygradflow.scale.Scaling": {"__init__"}, "pygradflow.problem.Problem": {"__init__"}, "pygradflow.eval.Evaluator": {"__init__", "reset_num_evals"},
+                  "pygradflow.eval.SimpleEvaluator": set(), "pygradflow.eval.ValidatingEvaluator": {"__init__"}}
+    for q, ctor in PERSISTENT.items():
+        c = u.cls(q)
+        for m in c.methods.values():
+            if m.name in ctor:
+                continue
+            for n in ast.walk(m.node):
+                tgt = None
+                if isinstance(n, ast.Attribute) and isinstance(n.ctx, ast.Store) and isinstance(n.value, ast.Name) and n.value.id == "self":
+                    tgt = ast.unparse(n)
+                if isinstance(n, ast.Subscript) and isinstance(n.ctx, ast.Store) and ast.unparse(n.value).startswith("self.") and ast.unparse(n.value) != "self.num_evals":
+                    tgt = ast.unparse(n)
+                if tgt:
+                    u.ensure(False, f"persistent_object_state:{q.split('.')[-1]}.{m.name}:{tgt}", desc=f"{m.qualname} stores to {tgt}: state on an object that survives from one solve to the next")
     # what Solver.solve writes on self
     solve = u.func("pygradflow.solver.Solver.solve")
     written = sorted({n.attr for n in ast.walk(solve.node) if isinstance(n, ast.Attribute) and isinstance(n.ctx, ast.Store) and isinstance(n.value, ast.Name) and n.value.id == "self"})
